@@ -5,10 +5,12 @@ Part (i), engine SEQ+FLT: logging programs x answer sequences of a faulty
 destination registered before / after a healthy one (<= k raises, plus
 always-raise); the structural invariant (vkit/structinv.py) is evaluated on the
 stream the healthy destination received.
-Part (ii), engines THR/AIO: the concurrent programs and all schedules of C05
-(see props/c05_concurrency.py, which evaluates the same invariant on every
-schedule); their counts are reported in C05's evidence and the invariant
-violations are attributed to C02 there.
+Part (ii), engines THR/AIO: a selection of the concurrent programs of C05
+(threads with/without preserve_context, asyncio tasks sharing the parent
+action) under ALL their schedules; the invariant is evaluated on the merged
+stream of every schedule (units ["conc", ...]).  C05 itself evaluates the
+invariant on all of its harnesses as well and reports violations as "C02:...".
+Part (iii): a fork scenario with the real uuid4.
 """
 
 from vkit import progs, world, flt, structinv
@@ -18,6 +20,7 @@ from vkit.world import eliot
 ID = "C02"
 SHARDS = 4
 LEVEL = "model_checking"
+CASE_TIMEOUT = 1800
 RULE = (
     "programs = forests <= N nodes x <= k attribute deviations (all message apis, action styles "
     "with/context+finish/run+finish/start_task/log_call [thorough: finish-while-current], typed, "
@@ -60,8 +63,13 @@ def schema(tier):
 EXIT_MAP = [0, 1, 2, 3, 4, 6, 11, 12]
 
 
+CONC_THR = [0, 5, 11, 14, 17, 21, 30]  # indexes into c05.thread_harnesses
+CONC_AIO = [1, 5, 7, 12, 16, 18]  # indexes into c05.aio_harnesses
+
+
 def units(tier):
     out = [["fork"]]
+    out += [["conc", "thr", i] for i in CONC_THR] + [["conc", "aio", i] for i in CONC_AIO]
     done = {}
     for n_max, devs in BOUNDS(tier)["plans"]:
         for n in range(1, n_max + 1):
@@ -76,6 +84,9 @@ def units(tier):
 
 
 def cases(unit, tier):
+    if unit[0] == "conc":
+        yield {"conc": [unit[1], unit[2], tier]}
+        return
     if unit == ["fork"]:
         for nchildren in (1, 2, 3):
             for warm in (0, 1, 70):
@@ -165,7 +176,33 @@ def run_fork(nchildren, warm):
                   executions=nchildren + 1, violations=viol[:3])
 
 
+def run_conc(kind, idx, tier):
+    """Part (ii): the concurrent programs of C05 under ALL their schedules; only the structural
+    invariant is judged here (context identity and canonical forests are C05's verdict)."""
+    from props import c05_concurrency as c05
+
+    hs = c05.thread_harnesses(tier) if kind == "thr" else c05.aio_harnesses(tier)
+    h = hs[idx % len(hs)]
+    try:
+        if kind == "thr":
+            execs, states, transitions, norders, nforests, viol = c05.run_threads(h)
+        else:
+            execs, states, transitions, norders, nforests, viol = c05.run_aio(h)
+    finally:
+        world.fresh()
+    mine = [("concurrent:" + sig[4:], d) for sig, d in viol if sig.startswith("C02:")]
+    return Result(outcome=["conc", kind, idx, execs, norders], nontrivial=norders > 1, states=states,
+                  transitions=transitions, executions=execs, violations=mine[:3],
+                  extra={"concurrent_schedules": execs})
+
+
+def DETERMINISM_REPLAY(case):
+    return "conc" not in case
+
+
 def run_case(case):
+    if "conc" in case:
+        return run_conc(*case["conc"])
     if "fork" in case:
         return run_fork(*case["fork"])
     prog = case["prog"]
